@@ -1,3 +1,4 @@
+import Hm.ReqLaws2
 import Hm.C07
 
 /-! C07 (second sentence) for the chunk decoder and for response parsing, repaired tree -/
@@ -167,8 +168,9 @@ theorem C07_response_reserve_bounded (cfg : RespCfg) (hrep : cfg.tree.repaired =
         · cases h; exact happ _ (by simp)
         · cases h; exact happ _ (by simp)
     | headers =>
-      simp only [hph, bind, Outcome.bind] at h
-      cases hp : (liftH Cat.Headers (Headers.parse cfg.hl s.headers (raw.drop tc)) : Out _) with
+      simp only [hph, bind, Outcome.bind, hrep, if_true] at h
+      have hsl := strip_length_le (raw.drop tc)
+      cases hp : (liftH Cat.Headers (Headers.parse cfg.hl s.headers (stripDanglingCr (raw.drop tc))) : Out _) with
       | err e => simp [hp] at h
       | panic k => simp [hp] at h
       | ok r0 =>
@@ -189,8 +191,8 @@ theorem C07_response_reserve_bounded (cfg : RespCfg) (hrep : cfg.tree.repaired =
             cases hn : parseNumber cfg.tree 10 v with
             | none => simp [hn] at h
             | some cl =>
-              simp only [hn, hrep, if_true] at h
-              cases hr : (vecReserve "response.body" s.body.length (min cl ((raw.drop tc).length - c0)) : Out Reserve) with
+              simp only [hn] at h
+              cases hr : (vecReserve "response.body" s.body.length (min cl ((stripDanglingCr (raw.drop tc)).length - c0)) : Out Reserve) with
               | err x => simp only [hr] at h; cases h
               | panic k => simp only [hr] at h; cases h
               | ok r =>
@@ -199,7 +201,7 @@ theorem C07_response_reserve_bounded (cfg : RespCfg) (hrep : cfg.tree.repaired =
                 intro r' hr'
                 simp at hr'; subst hr'
                 rw [vecReserve_additional hr]
-                simp at hlen ⊢; omega
+                simp at hlen hsl ⊢; omega
     | statusLine =>
       simp only [hph, bind, Outcome.bind] at h
       cases hf : findCrlf (raw.drop tc) with
